@@ -189,6 +189,10 @@ func c20VMPool(c *core.Ctx, rule string) {
 			}
 			if isGojaMethod(ci, "Runtime", "Set") || isGojaMethod(ci, "Object", "Set") || isGojaMethod(ci, "Runtime", "SetFieldNameMapper") {
 				setSites[f] = append(setSites[f], ci)
+			} else if o := core.CalleeObj(ci); o != nil && o.Pkg() != nil && o.Pkg().Path() == gojaPath && strings.HasPrefix(core.FuncName(o), "Runtime.Set") {
+				// any other configuration of a runtime (SetMaxCallStackSize, SetParserOptions, SetRandSource, ...): a runtime
+				// configured where it is created for the pool differs from the one created for the uncached path
+				setSites[f] = append(setSites[f], ci)
 			}
 		}
 	}
